@@ -27,7 +27,9 @@ RULE = ("cases: every type expression with <=3 wrappers over the 5 specified sca
         "bare scalar-at-scalar success (i.e. involves null, a wrapper, an enum, an input object, a boundary or a rejection)")
 ASSUMPTIONS = [
     "enum internal values are not None and python names are distinct within one input object / argument list",
-    "JSON numbers are finite floats and integers below 2^200 (float(int) overflow and NaN/Infinity are not JSON); IntValue texts are canonical decimal (no `-0`)",
+    "JSON integers stay below 2^200 (float(int) OverflowError is out of scope); non-finite floats (json.loads accepts Infinity/NaN) ARE generated: "
+    "the Float scalar refuses them on both routes (fix X2), `int(inf)` inside coerce_int escapes as OverflowError (outcome class `internal`); "
+    "IntValue texts are canonical decimal (no `-0`)",
     "'structurally wrong' = array/object where a specified scalar is expected, non-string where an enum is expected, non-object where an input "
     "object is expected; the library's lenient scalar coercions (Int from numeric string / integral float / bool, String and ID from numbers, "
     "Boolean by truthiness of scalars, Float from numeric string) are pinned by the suite and are modelled, not flagged; Python `bool` is an `int`",
@@ -35,7 +37,8 @@ ASSUMPTIONS = [
     "nested variables inside list/object literals: validation (VariablesInAllowedPosition) has accepted the document",
 ]
 TRUSTED = [
-    "extraction of the coerce_int range test and the _typed_coerce tables (Python ast -> Lean) in corr/C07.py",
+    "extraction of the coerce_int range test and the _typed_coerce tables (Python ast -> Lean) in corr/C07.py; the finiteness guard of "
+    "coerce_float is extracted as a 3-row table by evaluating the source's test expression on representatives of finite / inf / nan",
     "Python builtins int(str, 10), float(str), float.is_integer, str(int), repr(float) are observed by the harness and passed to the model as annotations (modelled, not verified)",
 ]
 
@@ -158,8 +161,47 @@ def literal_kind_table():
     return table
 
 
+def float_guard():
+    """Which classes of `numeric = float(maybe_float)` make `coerce_float` raise: the `if <test>: raise` statements
+    of coerce_float whose test only mentions the converted value are evaluated on representatives of each class.
+    -> ({"finite": bool, "inf": bool, "nan": bool}, [source of the tests])"""
+    src = SCALARS_PY.read_text()
+    tree = ast.parse(src)
+    fn = next((n for n in tree.body if isinstance(n, ast.FunctionDef) and n.name == "coerce_float"), None)
+    if fn is None:
+        raise Untranslatable("coerce_float not found in scalars.py")
+    param = fn.args.args[0].arg
+    var = None
+    for n in ast.walk(fn):
+        if (isinstance(n, ast.Assign) and len(n.targets) == 1 and isinstance(n.targets[0], ast.Name) and isinstance(n.value, ast.Call)
+                and isinstance(n.value.func, ast.Name) and n.value.func.id == "float"):
+            var = n.targets[0].id
+    guards = []
+    if var is not None:
+        for st in fn.body:
+            if isinstance(st, ast.If) and st.body and isinstance(st.body[0], ast.Raise) and not st.orelse:
+                names = {x.id for x in ast.walk(st.test) if isinstance(x, ast.Name)}
+                if var in names and param not in names:
+                    if not names <= {var, "float", "math", "abs"}:
+                        raise Untranslatable("finiteness guard of coerce_float mentions %s" % sorted(names))
+                    guards.append(st.test)
+    import math as _math
+    reps = {"finite": [0.0, -0.0, 1.5, -2.25, 1e308, -1e308, 5e-324], "inf": [float("inf"), float("-inf")], "nan": [float("nan")]}
+    out = {}
+    for cls, vals in reps.items():
+        verdicts = set()
+        for v in vals:
+            env = {"__builtins__": {}, "float": float, "math": _math, "abs": abs, var or "_": v}
+            verdicts.add(any(bool(eval(compile(ast.Expression(g), "<guard>", "eval"), env)) for g in guards))  # noqa: S307
+        if len(verdicts) != 1:
+            raise Untranslatable("finiteness guard of coerce_float does not treat the class %s uniformly" % cls)
+        out[cls] = verdicts.pop()
+    return out, [ast.get_source_segment(src, g) for g in guards]
+
+
 def extract(ctx):
     consts, accepted, pysrc = int_range_test()
+    guard, guard_src = float_guard()
     table = literal_kind_table()
     lines = [
         "/- GENERATED on every run by harness/corr/C07.py from src/py_gql/schema/scalars.py.",
@@ -172,6 +214,12 @@ def extract(ctx):
         "",
         "/-- `coerce_int` raises when `%s` holds; this is its negation: `numeric` is accepted. -/" % pysrc.replace("-/", "- /"),
         "def intInRange (numeric : Int) : Bool := %s" % accepted,
+        "",
+        "/-- `coerce_float` raises on `numeric = float(x)` when %s (evaluated on representatives" % (" or ".join("`%s`" % g.replace("-/", "- /") for g in guard_src) or "<no finiteness test in the source>"),
+        "    of each class): finite values / the infinities / NaN. -/",
+        "def floatRejectsFinite : Bool := %s" % ("true" if guard["finite"] else "false"),
+        "def floatRejectsInf : Bool := %s" % ("true" if guard["inf"] else "false"),
+        "def floatRejectsNaN : Bool := %s" % ("true" if guard["nan"] else "false"),
         "",
         "/-- literal kinds admitted by each specified scalar's `parse_literal` (`_typed_coerce(f, *node classes)`) -/",
         "def literalKinds : List (String × List String) := [",
@@ -386,6 +434,11 @@ def model_outcome(ans):
     if e == "coercion":
         return ("err",)
     return ("internal", str(e))
+
+
+def same_outcome(a, b):
+    """model vs implementation: an undocumented exception is compared by class `internal` only"""
+    return a == b or (a[0] == "internal" and b[0] == "internal")
 
 
 def ask_model(ctx, reg, items):
@@ -723,7 +776,7 @@ def group_from_jsonable(d):
 # =========================================================================== run
 
 RAW_LITS = [("null",), ("int", 1), ("int", 0), ("int", U.MAX32), ("int", U.MIN32), ("int", U.MAX32 + 1), ("int", U.MIN32 - 1), ("int", 2 ** 70),
-            ("float", "1.5"), ("float", "1e3"), ("float", "1.0"), ("float", "1e400"), ("float", "-0.0"),
+            ("float", "1.5"), ("float", "1e3"), ("float", "1.0"), ("float", "1e400"), ("float", "-0.0"), ("float", "1e999"), ("float", "-1e999"), ("list", [("float", "1e999")]),
             ("str", "abc"), ("str", "A"), ("str", ""), ("str", "12"), ("bool", True), ("bool", False),
             ("enum", "A"), ("enum", "B"), ("enum", "ZZ"), ("enum", "V0"),
             ("list", []), ("list", [("int", 1)]), ("list", [("null",)]), ("list", [("int", 1), ("str", "x")]), ("list", [("list", [("int", 2)])]),
@@ -776,7 +829,7 @@ def run_registry(ctx, reg, reg_id, types, per_type, depth, max_cases=2000, n_abs
         for it, im, ans, m in zip(items, impl, answers, meta):
             mo = model_outcome(ans)
             ctx.stat("%s:%s" % (m[0], im[0]))
-            if mo != im:
+            if not same_outcome(mo, im):
                 kind_in = jkind(m[2]) if m[0] == "coerce_value" else m[2][0]
                 ctx.fail("corr:%s:%s:%s:impl-%s-model-%s" % (m[0], shape(reg, m[1]), kind_in, im[0], mo[0]),
                          "%s: model and implementation differ" % m[0],
@@ -818,7 +871,7 @@ def run_registry(ctx, reg, reg_id, types, per_type, depth, max_cases=2000, n_abs
         answers = ask_model(ctx, reg, items)
         for it, ans, (g, route, d, spec) in zip(items, answers, metas):
             mo = model_outcome(ans)
-            if mo != d:
+            if not same_outcome(mo, d):
                 ctx.fail("corr:exec:%s:%s:impl-%s-model-%s" % (route, feature(reg, g["ty"], g["j"]), "-".join(d[:1] + (d[1:] if d[0] == "err" else ())),
                                                               "-".join(mo[:1] + (mo[1:] if mo[0] == "err" else ()))),
                          "coerce_variable_values + coerce_argument_values: model and implementation differ",
@@ -896,7 +949,7 @@ def run_abstract(ctx, chk, world, reg, reg_id):
     if ctx.model_ok and items:
         for it, ans, (exp, detail) in zip(items, ask_model(ctx, reg, items), metas):
             mo = model_outcome(ans)
-            if mo != exp:
+            if not same_outcome(mo, exp):
                 ctx.fail("corr:exec:abstract:impl-%s-model-%s" % (exp[0], mo[0]), "coerce_argument_values (abstract field): model and implementation differ",
                          dict(detail, request=it, model=list(mo)), kind="correspondence")
 
@@ -1061,6 +1114,7 @@ def run(ctx):
         run_registry(ctx, r, "rnd%d" % i, types, per_type=6 if quick else 10, depth=2,
                      max_cases=250 if quick else 1500, n_abstract=2 if quick else 6)
     ctx.extra["int_range_test_source"] = int_range_test()[2]
+    ctx.extra["float_finiteness_guard_source"] = float_guard()[1] or ["<none>"]
 
 
 def run_corpus(ctx):
